@@ -21,6 +21,8 @@ import EasyNet.Drv.DgramSrv
 import EasyNet.Drv.Timeout
 import EasyNet.Drv.Send
 import EasyNet.Drv.CancelScope
+import EasyNet.Drv.RecvProto
+import EasyNet.Drv.FlowCtl
 open EasyNet.Drv
 
 /-- one runner per model family; each returns `none` for model names it does not know -/
@@ -29,6 +31,8 @@ def runners : List (String → List String → List String → Option (List Stri
   , runExcFlow
   , runEndpoint
   , runDatagram
+  , C10.runRecvProto
+  , C20.runFlowCtl
   , runSenders
   , runTls
   , runStreamServer
